@@ -24,7 +24,7 @@ ASSUMPTIONS = ['expiry is the only disqualifying key condition reachable through
 KEYS = [('rsa1024-0', 'RSA', 'weak'), ('rsa2048-2', 'RSA', 'strong'), ('dsa1024-0', 'DSA', 'weak'), ('dsa2048-1', 'DSA', 'strong'),
         ('ecdsa-p256-0', 'EC', 'weak'), ('ed25519-0', 'EC', 'strong')]
 HASHES = [8, 2, 1]
-SUBJECTS = ['doc', 'self-uid', 'third-uid', 'whole-key', 'message', 'doc-by-subkey', 'doc-noise', 'doc-zero-expiry', 'doc-old-long', 'doc-by-expired-subkey', 'doc-direct-expiry']
+SUBJECTS = ['doc', 'self-uid', 'third-uid', 'whole-key', 'message', 'doc-by-subkey', 'doc-noise', 'doc-zero-expiry', 'doc-old-long', 'doc-by-expired-subkey', 'doc-direct-expiry', 'doc-unhashed-noise']
 
 
 def w_algebra(arg):
@@ -79,6 +79,21 @@ def build_cert(kid, expired, revoked, halg, secret=False, noise=False):
         noise = False
     blob = keypool.ref_cert(kid, uids=('Verdict Key <verdict@example.org>', 'Second <second@example.org>'), subkeys=(('cv25519-0', 0x0C), ('ed25519-1', 0x02)),
                             secret=secret, halg=halg, uid_extra=extra)
+    if noise == 'unhashed':
+        # anybody can add subpackets to the unhashed area, which the signature does not cover: a signature expiration time of one second and a
+        # key expiration time of zero placed there say nothing about the self-signatures or the key
+        # (the validity period is stated in a direct-key self-signature or, for every other key, in the self-certifications)
+        out = b''
+        if int.from_bytes(keypool.ref_public(kid).fingerprint[-1:], 'big') % 2 or halg == 8:
+            blob = build_cert(kid, expired, revoked, halg, secret, noise='direct')
+        for p in wire.split_packets(blob):
+            if p.tag == 2:
+                t = rsig.parse_sig_body(p.body)
+                unh = keypool.sp(3, wire.u32(1)) + keypool.sp(9, wire.u32(0)) + t.unhashed_area
+                out += wire.build_packet(2, t.hashed_prefix + len(unh).to_bytes(2, 'big') + unh + p.body[t.left16_off:])
+            else:
+                out += p.raw
+        return out
     if noise == 'direct':
         # the key states its validity period (one day) in a direct-key self-signature (RFC 4880 5.2.3.3: the place for information about
         # the key itself; what key.certify(key, key_expiration=...) writes); the self-certifications of the user ids say nothing about expiry
@@ -149,10 +164,10 @@ def scenario(rec, kid, fam, strength, expired, revoked, halg, subject, wrong):
     case = {'kind': 'scn', 'kid': kid, 'expired': expired, 'revoked': revoked, 'halg': halg, 'subject': subject, 'wrong': wrong}
     psec = keypool.ref_secret(kid)
     ppub = psec.pub
-    cert = build_cert(kid, expired, revoked, halg, noise=(subject == 'doc-noise') or {'doc-zero-expiry': 'zero', 'doc-old-long': 'old-long', 'doc-by-expired-subkey': 'sub-expired', 'doc-direct-expiry': 'direct'}.get(subject, False))
+    cert = build_cert(kid, expired, revoked, halg, noise=(subject == 'doc-noise') or {'doc-zero-expiry': 'zero', 'doc-old-long': 'old-long', 'doc-by-expired-subkey': 'sub-expired', 'doc-direct-expiry': 'direct', 'doc-unhashed-noise': 'unhashed'}.get(subject, False))
     if subject == 'doc-zero-expiry':
         expired = False
-    if subject in ('doc-old-long', 'doc-by-expired-subkey', 'doc-direct-expiry'):
+    if subject in ('doc-old-long', 'doc-by-expired-subkey', 'doc-direct-expiry', 'doc-unhashed-noise'):
         if revoked or not expired:
             return          # one scenario per key and hash is enough: the certificate is built expired by construction
         expired = True
@@ -166,7 +181,7 @@ def scenario(rec, kid, fam, strength, expired, revoked, halg, subject, wrong):
             if wrong == 0:
                 body = corrupt(body)
             res = ver.verify(b'verdict coherence', pgpy.PGPSignature.from_blob(wire.build_packet(2, body)))
-        elif subject in ('doc', 'doc-noise', 'doc-zero-expiry', 'doc-old-long', 'doc-direct-expiry'):
+        elif subject in ('doc', 'doc-noise', 'doc-zero-expiry', 'doc-old-long', 'doc-direct-expiry', 'doc-unhashed-noise'):
             body = rsig.sign(psec, 0x00, halg, ('doc', b'verdict coherence'), keypool.std_hashed(1600000000, ppub.fingerprint), keypool.sp(16, ppub.keyid))
             if wrong == 0:
                 body = corrupt(body)
